@@ -12,6 +12,9 @@ from typing import Any
 
 # name -> (kind, in_type, out_type, params{name: default|None}, creates[])
 NODEF = object()
+DEFAULT_NONE = "<the parameter's default is None>"     # in CATALOG a value of None means "no default": this marks a default that IS None
+
+
 CATALOG: dict[str, dict] = {
     "SvSource": dict(kind="source", i="none", o="float", params={"value": None}),
     "SvSourceDefault": dict(kind="source", i="none", o="float", params={"value": 41.5}),
@@ -20,6 +23,7 @@ CATALOG: dict[str, dict] = {
     "SvAddDefault": dict(kind="op", i="float", o="float", params={"addend": 1.5}),
     "SvMul": dict(kind="op", i="float", o="float", params={"factor": None}),
     "SvMulDefault": dict(kind="op", i="float", o="float", params={"factor": 2.0}),
+    "SvClip": dict(kind="op", i="float", o="float", params={"lower": DEFAULT_NONE, "upper": DEFAULT_NONE}),
     "SvAffine": dict(kind="op", i="float", o="float", params={"gain": None, "bias": 0.25}),
     "SvCaseOp": dict(kind="op", i="float", o="float", params={"Gain": None, "gain": None}),
     "SvScaleInPlace": dict(kind="op", i="float", o="float", params={"scale": 3.0}),
@@ -45,7 +49,7 @@ CATALOG: dict[str, dict] = {
     "SvCtxCombine": dict(kind="ctx", i=None, o=None, params={"a_in": None, "b_in": 1.25}, creates=["comb_out"]),
 }
 FLOAT_OPS = ["SvAdd", "SvAddDefault", "SvMul", "SvMulDefault", "SvAffine", "SvCtxWriterA", "SvCtxWriterB", "SvCaseOp",
-             "SvScaleInPlace", "SvAdd", "SvMulDefault", "SvAffine"]
+             "SvScaleInPlace", "SvAdd", "SvMulDefault", "SvAffine", "SvClip"]
 PROBES = ["SvProbe", "SvProbeParam", "SvProbeDefault"]
 EXPRS_1 = ["2.0 * {v}", "{v} + 1.5", "{v} * {v}", "0.5 + {v} * 3.0", "-{v}", "abs({v}) + 0.25",
            "{v} * 2.0 + 3.0 * {v} * {v}", "({v} + 1.0) * ({v} + 2.0)", "{v} * 4.0 + 0.5 * {v} + 1.0",
